@@ -247,6 +247,8 @@ func (r *renderer) stmts(ss []stmt, ind int, subTy string) {
 			r.w(ind, "error %d;", s.Code)
 		case "restart":
 			r.w(ind, "restart;")
+		case "retbare":
+			r.w(ind, "return;")
 		default:
 			panic("unknown statement kind " + s.K)
 		}
@@ -439,6 +441,30 @@ func renderTests(b *runRec, m *mainRec, seed int64) string {
 		fmt.Fprintf(&sb, "sub test_%s {\n", t.Name)
 		for _, o := range t.Body {
 			if str(o[0]) == "ast" {
+				continue
+			}
+			if str(o[0]) == "at" {
+				// the operation inside a construct of the test subroutine (the branch shown is the one taken:
+				// the mock request always has a Host header)
+				var inner []json.RawMessage
+				if err := json.Unmarshal(o[2], &inner); err != nil {
+					panic("bad positioned operation")
+				}
+				line := renderOp(inner)
+				switch str(o[1]) {
+				case "then":
+					fmt.Fprintf(&sb, "  if (req.http.Host) {\n    %s\n  }\n", line)
+				case "elif":
+					fmt.Fprintf(&sb, "  if (!req.http.Host) {\n    set req.http.Never = \"1\";\n  } else if (req.http.Host) {\n    %s\n  }\n", line)
+				case "else":
+					fmt.Fprintf(&sb, "  if (!req.http.Host) {\n    set req.http.Never = \"1\";\n  } else {\n    %s\n  }\n", line)
+				case "nested":
+					fmt.Fprintf(&sb, "  if (req.http.Host) {\n    if (req.http.Never) {\n      set req.http.Never = \"2\";\n    } else {\n      %s\n    }\n  }\n", line)
+				case "case":
+					fmt.Fprintf(&sb, "  switch (req.http.Never) {\n    case \"x\":\n      set req.http.Never = \"3\";\n      break;\n    default:\n      %s\n      break;\n  }\n", line)
+				default:
+					panic("unknown position " + str(o[1]))
+				}
 				continue
 			}
 			sb.WriteString("  " + renderOp(o) + "\n")
